@@ -518,7 +518,7 @@ class Gen:
             if t[0] == "struct" and self.find_struct(t[1]).lifetimes:
                 pass
             nm = "p%d" % i
-            if p["keyword_params"] and self.chance(0.08):
+            if p["keyword_params"] and self.chance(0.3 if (t[0] == "str" and t[1] == "utf8") else 0.08):
                 kw = self.pick(KEYWORD_PARAMS)
                 # two parameters of one method never differ only by underscores: backends escape `default` as `default_` and re-case
                 # `new_` to `new`, so such siblings collide in the generated code (recorded as a C09 finding through a directed probe)
